@@ -16,7 +16,7 @@ theorem C09_inv_init : Inv Attrs.init := by decide
     bounds, hashing, an unrelated field — applied in a state that satisfies the invariant leaves
     a state that satisfies it, *also when the operation raises* (the model returns the state a
     raising setter leaves behind).  Hypothesis `OpOk`: the operation is not a bound assignment
-    across the other bound (D09b) and not a reset of the maximum below the piece length (D09c). -/
+    (`None` counting as the class default) across the other bound (open finding D09b). -/
 theorem C09_inv_step (env : Env) (s : St) (op : Op) (h : Inv s) (hok : OpOk s op) :
     Inv (apply env s op).1 :=
   apply_inv h env op hok
@@ -33,7 +33,9 @@ theorem C09_inv_history (env : Env) (ops : List Op) (hok : AllOk env Attrs.init 
     Inv (run env Attrs.init ops) :=
   C09_inv_reachable env ops _ C09_inv_init hok
 
-/-- Operations other than the three kinds of bound assignment need no hypothesis at all. -/
+/-- Operations other than the three kinds of bound assignment that can cross the other bound
+    (`piece_size_min = v`, `piece_size_max = v`, `piece_size_max = None`) need no hypothesis at all
+    — in particular `piece_size_min = None`. -/
 theorem C09_inv_step_unconditional (env : Env) (s : St) (op : Op) (h : Inv s)
     (hop : ∀ v, op ≠ .setMin (some v) ∧ op ≠ .setMax (some v) ∧ op ≠ .setMax none) :
     Inv (apply env s op).1 := by
@@ -58,13 +60,55 @@ theorem C09_inv_step_counterexample : ¬ C09_inv_step_full := by
   have := h ⟨[], []⟩ { Attrs.init with pmax := 32768 } (.setMin (some 65536)) (by decide)
   revert this; decide
 
-/-- D09c: with an explicit maximum of 32 MiB and a piece size of 32 MiB, `piece_size_max = None`
-    falls back to 16 MiB without clamping: piece size > maximum. -/
-theorem C09_inv_step_counterexample_reset :
-    ¬ (∀ (env : Env) (s : St), Inv s → s.pmin ≤ defaultMax → Inv (apply env s (.setMax none)).1) := by
-  intro h
-  have := h ⟨[], []⟩ { Attrs.init with pmax := 33554432, pl := some 33554432 } (by decide) (by decide)
-  revert this; decide
+/-- **Resetting a bound** (repaired finding D09c, fix 2a4faa5).  `piece_size_max = None` in a
+    state whose minimum does not exceed the class default keeps the invariant, and afterwards the
+    piece length, if any, is at most the default maximum of 16 MiB (it is clamped, and the hashes
+    are dropped if that changed it); `piece_size_min = None` needs no hypothesis. -/
+theorem C09_inv_bound_reset (env : Env) (s : St) (h : Inv s) :
+    Inv (apply env s (.setMin none)).1 ∧
+    (s.pmin ≤ defaultMax →
+      Inv (apply env s (.setMax none)).1 ∧ (apply env s (.setMax none)).1.pmax = defaultMax ∧
+      ∀ pl, (apply env s (.setMax none)).1.pl = some pl → pl ≤ defaultMax) := by
+  refine ⟨apply_inv h env _ True.intro, fun hle => ?_⟩
+  have hi : Inv (apply env s (.setMax none)).1 := apply_inv h env (.setMax none) hle
+  have hm : (apply env s (.setMax none)).1.pmax = defaultMax := setMax_none_pmax s
+  refine ⟨hi, hm, fun pl hp => ?_⟩
+  have hpl := hi.2.2.2.1
+  unfold PlOk at hpl
+  rw [hp, hm] at hpl
+  exact hpl.2.2
+
+/-- regression of the D09c witness: explicit maximum 32 MiB, piece size 32 MiB, then
+    `piece_size_max = None` — the invariant holds and the piece size was clamped to 16 MiB -/
+example : Inv (apply ⟨[], []⟩ { Attrs.init with pmax := 33554432, pl := some 33554432 } (.setMax none)).1 ∧
+    (apply ⟨[], []⟩ { Attrs.init with pmax := 33554432, pl := some 33554432 } (.setMax none)).1.pl
+      = some 16777216 := by decide
+
+/-- **Crossing, then corrected** (narrows D09b).  A bound assignment — whatever it does: cross the
+    other bound, raise after storing the bound — followed directly by an accepted assignment
+    (`None` or a positive multiple of 16 KiB) of the *same* bound that does not cross the other
+    bound leaves a state satisfying the invariant.  So the damage of D09b is confined to the
+    bound itself and is undone by re-assigning that bound (piece length and hashes were not
+    touched by the crossing assignment). -/
+theorem C09_inv_corrected_step (env : Env) (s : St) (op op' : Op) (h : Inv s)
+    (hs : sameBound op op' = true) (hok : OpOk s op') :
+    Inv (apply env (apply env s op).1 op').1 :=
+  apply_corrected_inv h env op op' hs hok
+
+/-- All histories in which every bound assignment across the other bound is directly followed by
+    such a corrective assignment (hypothesis `AllOkC`, evaluated by the driver as `hypC`). -/
+theorem C09_inv_reachable_corrected (env : Env) (ops : List Op) (s : St) (h : Inv s)
+    (hok : AllOkC env s ops) : Inv (run env s ops) :=
+  allOkC_inv env ops s h hok
+
+theorem C09_inv_history_corrected (env : Env) (ops : List Op) (hok : AllOkC env Attrs.init ops) :
+    Inv (run env Attrs.init ops) :=
+  allOkC_inv env ops _ C09_inv_init hok
+
+/-- `AllOkC` is weaker than `AllOk`: the `_corrected` theorems subsume `C09_inv_reachable/history`. -/
+theorem C09_allOk_corrected (env : Env) (ops : List Op) (s : St) (hok : AllOk env s ops) :
+    AllOkC env s ops :=
+  allOk_allOkC env ops s hok
 
 /-- `size` is the sum of the sizes of the listed files — in every state. -/
 theorem C09_size_sum (s : St) : size s = ((filesOf s).map (·.2)).sum := by
@@ -244,6 +288,13 @@ example : (run exEnv exS (exOps ++ [.setPieceSize (some 65536)])).pieces = none 
 example : (run exEnv exS (exOps ++ [.setMin (some 65536)])).pieces = none := by decide
 example : (run exEnv exS (exOps ++ [.setPieceSize (some 49152), .setName none])).pieces.isSome = true := by
   decide
+/-- `AllOkC` is strictly weaker: `piece_size_max = 32768; piece_size_min = 65536` (raises, leaves
+    min > max: D09b) `; piece_size_min = 32768` — not `AllOk`, but `AllOkC`; the invariant fails
+    after the second and holds again after the third assignment (piece size clamped to 32768). -/
+example :
+    let ops : List Op := [.setMax (some 32768), .setMin (some 65536), .setMin (some 32768), .generate]
+    ¬ AllOk exEnv exS ops ∧ AllOkC exEnv exS ops ∧ ¬ Inv (run exEnv exS (ops.take 2)) ∧
+    Inv (run exEnv exS (ops.take 3)) ∧ (run exEnv exS ops).pieces.isSome = true := by decide
 example : ∃ size, ¬ 2 * size ≤ maxPieces size ∧ 16384 < rawPieceSize size := ⟨2 ^ 24, by decide⟩
 
 end Torf.C09
